@@ -127,7 +127,7 @@ CHECKS["C07"] = {
                        "types/wchar.py:Wchar._read_0", "types/leb128.py:LEB128._read_0",
                        "types/enum.py:EnumMetaType._read_0", "types/structure.py:StructureMetaType._read_0",
                        "cstruct.py:cstruct._make_array", "<compiled>"],
-    "required_cells": ['packedxexprenum:interpreted', 'widexexprenum:interpreted', 'floatxexprenum:interpreted', 'charxexprenum:interpreted', 'wcharxexprenum:interpreted', 'enumxexprenum:interpreted', 'flagxexprenum:interpreted', 'lebxexprenum:interpreted', 'structxexprenum:interpreted', 'intstructxexprenum:interpreted', 'dynstructxexprenum:interpreted', 'arrayxexprenum:interpreted', 'chararrayxexprenum:interpreted', 'ptrxexprenum:interpreted', 'packedxfixed0:interpreted', 'packedxfixed1:interpreted', 'packedxfixedk:interpreted', 'packedxexpr:interpreted', 'packedxexprneg:interpreted', 'packedxexprconst:interpreted', 'packedxexprsizeof:interpreted', 'packedxnull:interpreted', 'packedxeof:interpreted', 'widexfixed0:interpreted', 'widexfixed1:interpreted', 'widexfixedk:interpreted', 'widexexpr:interpreted', 'widexexprneg:interpreted', 'widexexprconst:interpreted', 'widexexprsizeof:interpreted', 'widexnull:interpreted', 'widexeof:interpreted', 'floatxfixed0:interpreted', 'floatxfixed1:interpreted', 'floatxfixedk:interpreted', 'floatxexpr:interpreted', 'floatxexprneg:interpreted', 'floatxexprconst:interpreted', 'floatxexprsizeof:interpreted', 'floatxeof:interpreted', 'charxfixed0:interpreted', 'charxfixed1:interpreted', 'charxfixedk:interpreted', 'charxexpr:interpreted', 'charxexprneg:interpreted', 'charxexprconst:interpreted', 'charxexprsizeof:interpreted', 'charxnull:interpreted', 'charxeof:interpreted', 'wcharxfixed0:interpreted', 'wcharxfixed1:interpreted', 'wcharxfixedk:interpreted', 'wcharxexpr:interpreted', 'wcharxexprneg:interpreted', 'wcharxexprconst:interpreted', 'wcharxexprsizeof:interpreted', 'wcharxnull:interpreted', 'wcharxeof:interpreted', 'enumxfixed0:interpreted', 'enumxfixed1:interpreted', 'enumxfixedk:interpreted', 'enumxexpr:interpreted', 'enumxexprneg:interpreted', 'enumxexprconst:interpreted', 'enumxexprsizeof:interpreted', 'enumxnull:interpreted', 'enumxeof:interpreted', 'flagxfixed0:interpreted', 'flagxfixed1:interpreted', 'flagxfixedk:interpreted', 'flagxexpr:interpreted', 'flagxexprneg:interpreted', 'flagxexprconst:interpreted', 'flagxexprsizeof:interpreted', 'flagxnull:interpreted', 'flagxeof:interpreted', 'lebxfixed0:interpreted', 'lebxfixed1:interpreted', 'lebxfixedk:interpreted', 'lebxexpr:interpreted', 'lebxexprneg:interpreted', 'lebxexprconst:interpreted', 'lebxexprsizeof:interpreted', 'lebxnull:interpreted', 'lebxeof:interpreted', 'structxfixed0:interpreted', 'structxfixed1:interpreted', 'structxfixedk:interpreted', 'structxexpr:interpreted', 'structxexprneg:interpreted', 'structxexprconst:interpreted', 'structxexprsizeof:interpreted', 'structxeof:interpreted', 'intstructxfixed0:interpreted', 'intstructxfixed1:interpreted', 'intstructxfixedk:interpreted', 'intstructxexpr:interpreted', 'intstructxexprneg:interpreted', 'intstructxexprconst:interpreted', 'intstructxexprsizeof:interpreted', 'intstructxnull:interpreted', 'intstructxeof:interpreted', 'dynstructxfixed0:interpreted', 'dynstructxfixed1:interpreted', 'dynstructxfixedk:interpreted', 'dynstructxexpr:interpreted', 'dynstructxexprneg:interpreted', 'dynstructxexprconst:interpreted', 'dynstructxexprsizeof:interpreted', 'dynstructxeof:interpreted', 'arrayxfixed0:interpreted', 'arrayxfixed1:interpreted', 'arrayxfixedk:interpreted', 'arrayxexpr:interpreted', 'arrayxexprneg:interpreted', 'arrayxexprconst:interpreted', 'arrayxexprsizeof:interpreted', 'arrayxeof:interpreted', 'chararrayxfixed0:interpreted', 'chararrayxfixed1:interpreted', 'chararrayxfixedk:interpreted', 'chararrayxexpr:interpreted', 'chararrayxexprneg:interpreted', 'chararrayxexprconst:interpreted', 'chararrayxexprsizeof:interpreted', 'chararrayxeof:interpreted', 'ptrxfixed0:interpreted', 'ptrxfixed1:interpreted', 'ptrxfixedk:interpreted', 'ptrxexpr:interpreted', 'ptrxexprneg:interpreted', 'ptrxexprconst:interpreted', 'ptrxexprsizeof:interpreted', 'ptrxeof:interpreted'] + ["direct-use", "shadowing", "long:charxnull", "long:wcharxnull",
+    "required_cells": ['packedxexprenum:interpreted', 'widexexprenum:interpreted', 'floatxexprenum:interpreted', 'charxexprenum:interpreted', 'wcharxexprenum:interpreted', 'enumxexprenum:interpreted', 'flagxexprenum:interpreted', 'lebxexprenum:interpreted', 'structxexprenum:interpreted', 'intstructxexprenum:interpreted', 'dynstructxexprenum:interpreted', 'arrayxexprenum:interpreted', 'chararrayxexprenum:interpreted', 'ptrxexprenum:interpreted', 'packedxfixed0:interpreted', 'packedxfixed1:interpreted', 'packedxfixedk:interpreted', 'packedxexpr:interpreted', 'packedxexprneg:interpreted', 'packedxexprconst:interpreted', 'packedxexprsizeof:interpreted', 'packedxnull:interpreted', 'packedxeof:interpreted', 'widexfixed0:interpreted', 'widexfixed1:interpreted', 'widexfixedk:interpreted', 'widexexpr:interpreted', 'widexexprneg:interpreted', 'widexexprconst:interpreted', 'widexexprsizeof:interpreted', 'widexnull:interpreted', 'widexeof:interpreted', 'floatxfixed0:interpreted', 'floatxfixed1:interpreted', 'floatxfixedk:interpreted', 'floatxexpr:interpreted', 'floatxexprneg:interpreted', 'floatxexprconst:interpreted', 'floatxexprsizeof:interpreted', 'floatxeof:interpreted', 'charxfixed0:interpreted', 'charxfixed1:interpreted', 'charxfixedk:interpreted', 'charxexpr:interpreted', 'charxexprneg:interpreted', 'charxexprconst:interpreted', 'charxexprsizeof:interpreted', 'charxnull:interpreted', 'charxeof:interpreted', 'wcharxfixed0:interpreted', 'wcharxfixed1:interpreted', 'wcharxfixedk:interpreted', 'wcharxexpr:interpreted', 'wcharxexprneg:interpreted', 'wcharxexprconst:interpreted', 'wcharxexprsizeof:interpreted', 'wcharxnull:interpreted', 'wcharxeof:interpreted', 'enumxfixed0:interpreted', 'enumxfixed1:interpreted', 'enumxfixedk:interpreted', 'enumxexpr:interpreted', 'enumxexprneg:interpreted', 'enumxexprconst:interpreted', 'enumxexprsizeof:interpreted', 'enumxnull:interpreted', 'enumxeof:interpreted', 'flagxfixed0:interpreted', 'flagxfixed1:interpreted', 'flagxfixedk:interpreted', 'flagxexpr:interpreted', 'flagxexprneg:interpreted', 'flagxexprconst:interpreted', 'flagxexprsizeof:interpreted', 'flagxnull:interpreted', 'flagxeof:interpreted', 'lebxfixed0:interpreted', 'lebxfixed1:interpreted', 'lebxfixedk:interpreted', 'lebxexpr:interpreted', 'lebxexprneg:interpreted', 'lebxexprconst:interpreted', 'lebxexprsizeof:interpreted', 'lebxnull:interpreted', 'lebxeof:interpreted', 'structxfixed0:interpreted', 'structxfixed1:interpreted', 'structxfixedk:interpreted', 'structxexpr:interpreted', 'structxexprneg:interpreted', 'structxexprconst:interpreted', 'structxexprsizeof:interpreted', 'structxeof:interpreted', 'intstructxfixed0:interpreted', 'intstructxfixed1:interpreted', 'intstructxfixedk:interpreted', 'intstructxexpr:interpreted', 'intstructxexprneg:interpreted', 'intstructxexprconst:interpreted', 'intstructxexprsizeof:interpreted', 'intstructxnull:interpreted', 'intstructxeof:interpreted', 'dynstructxfixed0:interpreted', 'dynstructxfixed1:interpreted', 'dynstructxfixedk:interpreted', 'dynstructxexpr:interpreted', 'dynstructxexprneg:interpreted', 'dynstructxexprconst:interpreted', 'dynstructxexprsizeof:interpreted', 'dynstructxeof:interpreted', 'arrayxfixed0:interpreted', 'arrayxfixed1:interpreted', 'arrayxfixedk:interpreted', 'arrayxexpr:interpreted', 'arrayxexprneg:interpreted', 'arrayxexprconst:interpreted', 'arrayxexprsizeof:interpreted', 'arrayxeof:interpreted', 'chararrayxfixed0:interpreted', 'chararrayxfixed1:interpreted', 'chararrayxfixedk:interpreted', 'chararrayxexpr:interpreted', 'chararrayxexprneg:interpreted', 'chararrayxexprconst:interpreted', 'chararrayxexprsizeof:interpreted', 'chararrayxeof:interpreted', 'ptrxfixed0:interpreted', 'ptrxfixed1:interpreted', 'ptrxfixedk:interpreted', 'ptrxexpr:interpreted', 'ptrxexprneg:interpreted', 'ptrxexprconst:interpreted', 'ptrxexprsizeof:interpreted', 'ptrxeof:interpreted', 'exprarrayxfixed0:interpreted', 'exprarrayxfixed1:interpreted', 'exprarrayxfixedk:interpreted', 'exprarrayxexpr:interpreted', 'exprarrayxexprneg:interpreted', 'exprarrayxexprconst:interpreted', 'exprarrayxexprsizeof:interpreted', 'exprarrayxexprenum:interpreted', 'exprarrayxeof:interpreted'] + ["direct-use", "shadowing", "long:charxnull", "long:wcharxnull",
                                                              "long:packedxexpr", "long:lebxnull"],
     "assumptions": ASSUME_COMMON,
 }
@@ -250,7 +250,8 @@ CHECKS["C13"] = {
                        "parser.py:TokenParser._struct", "parser.py:TokenParser._typedef", "parser.py:TokenParser._enum",
                        "parser.py:TokenParser._constant", "parser.py:TokenParser._parse_field_type",
                        "parser.py:TokenParser._names", "cstruct.py:cstruct.add_type", "cstruct.py:cstruct.resolve"],
-    "required_cells": ["reordered", "split-loads", "builtin-aliases", "alias-chain", "unknown-alias", "cyclic-alias"],
+    "required_cells": ["reordered", "split-loads", "builtin-aliases", "alias-chain", "unknown-alias", "cyclic-alias",
+                       "keyword-like-field-names", "string-constants", "alias-replace", "boundary:line-ends"],
     "assumptions": ASSUME_COMMON,
 }
 
@@ -334,7 +335,7 @@ CHECKS["C16"] = {
                        "types/pointer.py:Pointer.__add__", "cstruct.py:cstruct._make_pointer", "<compiled>"],
     "required_cells": ["width:uint8", "width:uint16", "width:uint24", "width:uint32", "width:uint48", "width:uint64",
                        "target:char", "target:struct", "target:ptrptr", "reader:compiled", "reader:interpreted",
-                       "endian:>", "reconfigured-width", "context-target:first", "context-target:last",
+                       "endian:>", "union-pointers", "reconfigured-width", "context-target:first", "context-target:last",
                        "context-target:both"],
     "assumptions": ASSUME_COMMON,
 }
@@ -359,7 +360,7 @@ CHECKS["C11"] = {
     "required_cells": ["pinned-witnesses", "align:True", "align:False", "shape:top", "shape:field", "shape:anon", "route:direct",
                        "route:nested-via-proxy", "route:nested-deep", "route:anonymous-struct-field",
                        "route:array-replace", "route:nested-union", "route:explicit-offset-member",
-                       "shape:explicit-offsets"],
+                       "shape:explicit-offsets", "held-reference", "route:refused-assignment"],
     "assumptions": ASSUME_COMMON + ["an assignment writes the member's full encoding (its padding as zero) into the "
                                     "union's bytes"],
 }
@@ -380,7 +381,8 @@ CHECKS["C17"] = {
                        "types/structure.py:_generate__hash__", "types/structure.py:_generate__bool__",
                        "types/structure.py:_generate_structure__init__", "types/structure.py:StructureMetaType._update_fields",
                        "types/structure.py:attrsetter"],
-    "required_cells": ["align:True", "align:False", "fields:0+", "fields:5+", "fields:10+", "nested-struct-in-union"],
+    "required_cells": ["align:True", "align:False", "fields:0+", "fields:5+", "fields:10+", "nested-struct-in-union",
+                       "discard-field"],
     "assumptions": ASSUME_COMMON + ["NaN-containing values are not used (NaN != NaN as in Python)"],
 }
 
@@ -420,7 +422,7 @@ CHECKS["C18"] = {
                        "parser.py:TokenParser._struct", "compiler.py:Compiler.compile_read"],
     "required_cells": ["pattern:all-single", "pattern:mixed", "transition:becomes-dynamic", "transition:gains-bit-fields",
                        "transition:alignment-grows", "self-reference", "instances-exist-before-extension",
-                       "batch-left-by-exception"],
+                       "batch-left-by-exception", "discard-fields-sequence", "array-of-intermediate-state", "refused-extension-in-between"],
     "assumptions": ASSUME_COMMON,
 }
 
